@@ -133,6 +133,53 @@ reg("C18", p_meta.c18, {"R-ORDER": 1, "R-WHO": 8}, ["r_order"],
             "block job on every schedule.",
     not_decided="durability semantics of the kernel; that a failed fsync is reported is C04.")
 
+import p_gate
+
+reg("C03", p_gate.c03, {"R-ROLE": 30, "R-ORDER": 3, "R-WHO": 10}, ["r_order", "r_role"],
+    rule="R-ROLE: no SRC-role path/descriptor reaches a mutating sink in any function of libxcp/libfs (roles inferred "
+         "inter-procedurally from the drivers' (sources, dest) parameters); R-ORDER: every truncating open / rename of the "
+         "destination reachable from the drivers is control-dependent on an inode-identity test (st_dev+st_ino of source vs "
+         "destination) being false, and the 'same' outcome fails on every path; R-WHO: destructive primitives are called "
+         "only from tabled functions; no OpenOptions chains.",
+    technique="role (taint-like) inference over paths and descriptors + dominance of an inode-identity gate + who-may-call",
+    decided="(a) no system call xcp issues can alter a source through its source name: sources are only ever File::open'ed "
+            "and never reach a mutating sink; (b) the destination is never truncated or renamed unless it was shown not to be "
+            "the source's inode, which covers spelling, symlink and hard-link aliases; (c) destructive calls are confined.",
+    not_decided="bystanders reached through a destination alias other than the source (a destination symlink to an "
+                "unrelated file); atime effects; kill points are covered only by the argument that no source-mutating "
+                "call exists at all.")
+
+reg("C08", p_gate.c08, {"R-ORDER": 10, "R-PROBE": 3, "R-WHO": 10}, ["r_order"],
+    rule="walker: on no_clobber==true and exists(target) every path fails (Error update + Err) before any operation is "
+         "queued or directory created, and all such effects are dominated by the test; both Special arms: remove_file is "
+         "control-dependent on !no_clobber, the no_clobber branch fails; the existence predicates are lstat-based; "
+         "destructive primitives confined; no_clobber && force rejected before the copy starts.",
+    technique="control-dependence/dominance gate rules + lstat who-may-call + effect confinement",
+    decided="(a) no queued operation or directory creation can happen for an entry that exists when no-clobber is set, and "
+            "the run fails; (b) existence is tested without following symlinks; (c) nothing else in the code base can "
+            "truncate/remove/rename; (d) the force conflict is rejected up front.",
+    not_decided="the check-then-act window between the walker's probe and the worker's open (two sources mapping onto one new path).")
+
+reg("C09", p_gate.c09, {"R-ORDER": 2, "R-TABLE": 5, "R-ERR": 8}, ["r_order", "r_err"],
+    rule="CopyHandle::new: rename(to, get_backup_path(to)) is control-dependent on needs_backup, precedes the truncating "
+         "open on that branch, is error-propagated, and is the only way the old file is touched; backup-name functions "
+         "contain no lossy/partial OsStr->str conversion of file-name data; directory-entry errors of the scan are not "
+         "swallowed; needs_backup's per-mode arms probe/scan as tabled.",
+    technique="dominance/ordering + provenance of the rename target + lossy-conversion who-may-call + error discipline on the scan",
+    decided="(a) the old file is preserved by one atomic rename to the computed backup name before the destination is "
+            "re-created (so at every instant the old content is under one of the two names); (b) names are compared "
+            "byte-exactly; (c) a failed directory read cannot lower the computed maximum; (d) the mode table.",
+    not_decided="N = max+1 as arithmetic, the regex's language, overflow at u64::MAX, prefix-related names (only raise N).")
+
+reg("C13", p_gate.c13, {"R-TABLE": 2, "R-ORDER": 1, "R-ERR": 3}, ["r_order"],
+    rule="tree_walker: WalkDir::follow_links(v) with v derived from config.dereference; canonicalize control-dependent on "
+         "dereference and error-propagated; walk-entry errors (dangling/cyclic links reported by walkdir) propagated; the "
+         "kind dispatch uses metadata of the canonicalised path.",
+    technique="provenance of builder arguments + control dependence + error discipline",
+    decided="directories reached through links are descended iff dereference is set, dangling/cyclic links make the walker "
+            "return Err, and no Link operation can be produced from a dereferenced path.",
+    not_decided="contents copied through chains; loop detection inside walkdir (third-party).")
+
 NOT_APPLICABLE = {
     "C19": "relation between returned integers and file bytes over kernel-supplied data (FIEMAP/SEEK_DATA) and all extent lists: "
            "arithmetic/relational reasoning over runtime values; any shape rule would freeze today's source fragment (DESIGN.md section 6)",
